@@ -401,6 +401,7 @@ class StubsLib(StubsBase):
             "result_type": Stub(self.np_result_type, "np.result_type"),
             "allclose": Stub(self.np_allclose, "np.allclose"),
             "all": Stub(self.np_all, "np.all"),
+            "any": Stub(self.np_any, "np.any"),
             "bool_": Stub(lambda c, x: x, "np.bool_"),
             "dtype": Stub(lambda c, x: self.to_dtype(x), "np.dtype"),
             "s_": NS("np.s_", {}),
@@ -732,6 +733,12 @@ class StubsLib(StubsBase):
     def np_all(self, ctx, x):
         if isinstance(x, SArr):
             return self.forall_elems(ctx, x, lambda e: e, "all")
+        return self.interp.truthy_sym(x, ctx)
+
+    def np_any(self, ctx, x):
+        """np.any(x) = not np.all(not x)."""
+        if isinstance(x, SArr):
+            return V.Not(self.forall_elems(ctx, x, lambda e: V.Not(e), "any"))
         return self.interp.truthy_sym(x, ctx)
 
     # -- ndarray attribute access --------------------------------------------------------
